@@ -53,11 +53,7 @@ RULE = ("per op one call of lsearchk_t::get: method x interpolation x max_iterat
         "x0 in boxes of radius 1e-2..1e3 x direction (negative gradient, perturbed negative gradient, quasi-Newton-like SPD image, random "
         "explicit, non-descent: +gradient, zero, orthogonal); an op is non-trivial when the direction is meant to be a descent direction "
         "(the search runs); distinct by op text")
-# Both tiers run the release flavour: the sanitizer flavour keeps the library's `assert`s, and `lsearchk_t::update` evaluates
-# `has_armijo` for its log line, whose consistency assert computes inf - inf = NaN for a non-finite trial point (and
-# `has_approx_wolfe` asserts c1 < 0.5) and aborts the process, whereas the release build - the subject of C07 - treats such
-# trial points as invalid states. The thorough tier runs 40x more cases instead.
-FLAVOUR = {"quick": "plain", "thorough": "plain"}
+FLAVOUR = {"quick": "plain", "thorough": "asan"}
 RTOL = 1e-12
 HARNESS_TIMEOUT = 1500
 
@@ -192,7 +188,7 @@ def gen(rng, tier):
                     x0 = [rng.uniform(-1, 1) for _ in range(n)]
                     for direction in ["neggrad", "posgrad"]:
                         ops.append(make_op(method, interp, 128, (1e-4, 0.1), DEFAULTS, t0, fspec, x0, direction))
-    count = 8000 if tier == "quick" else 320000
+    count = 8000 if tier == "quick" else 120000
     for _ in range(count):
         method = rng.choice(METHODS)
         interp = rng.choice(INTERPS)
@@ -312,14 +308,17 @@ def oracle(aug, res):
     wolfe = dg >= c2 * dg0 - sg
     swolfe = abs(dg) <= c2 * abs(dg0) + sg
     why = []
-    if m in ("backtrack", "lemarechal", "fletcher") or (m == "morethuente" and r.cq):
+    # the clause about convex quadratics is checked with the per-method parameters at their defaults (they are not part of
+    # the property's quantifier); the clause about backtrack/LeMarechal/Fletcher holds for every configuration
+    cq = r.cq and op.default_params()
+    if m in ("backtrack", "lemarechal", "fletcher") or (m == "morethuente" and cq):
         if not armijo:
             why.append(f"Armijo fails: f={f!r} > f0 + t c1 g0.d = {f0 + t * c1 * dg0!r}")
     if m == "lemarechal" and not wolfe:
         why.append(f"Wolfe fails: g.d={dg!r} < c2 g0.d = {c2 * dg0!r}")
-    if (m == "fletcher" or (m == "morethuente" and r.cq)) and not swolfe:
+    if (m == "fletcher" or (m == "morethuente" and cq)) and not swolfe:
         why.append(f"strong Wolfe fails: |g.d|={abs(dg)!r} > c2 |g0.d| = {c2 * abs(dg0)!r}")
-    if m == "cgdescent" and r.cq:
+    if m == "cgdescent" and cq:
         epsk = op.cgeps * abs(f0)
         approx = f <= f0 + epsk + sf and (2.0 * c1 - 1.0) * dg0 + sg >= dg and wolfe
         if not ((armijo and wolfe) or approx):
